@@ -103,6 +103,9 @@ func Execute(t *testing.T, job *Job) (res Result) {
 		r.Sites = Inventory(t)
 		// the inventory run drew from its own tape: what the recorder file holds from here on is this job's tape only
 		resetTapeFile()
+		if k := job.Knobs["holdsite"]; k > 0 && k <= len(r.Sites) {
+			r.ForceSite = r.Sites[k-1]
+		}
 	}
 	scen, ok := Scenarios[job.Prop+"/"+job.Profile]
 	if !ok {
@@ -367,6 +370,7 @@ func bubbleBody(t *testing.T, r *Run, scen Scenario, job *Job) {
 	synctest.Test(t, func(t *testing.T) {
 		r.T0 = time.Now()
 		r.Sched = simsync.NewScheduler()
+		r.Sched.UnlockYield = job.Knobs["uyield"] != 0
 		simsync.Install(r.Sched)
 		defer r.Sched.Stop()
 		defer func() {
